@@ -327,6 +327,7 @@ func c14alt(sc *sim.Scenario, env *sim.Env) *sim.Violation {
 		return m
 	}
 	ss := sim.NewSink(env, int(sc.C("sink"))&3, int(sc.C("sinkk"))*4)
+	var strLines []string
 	run := func(traced bool) (Regs, *SimMem, []preStep, [][]byte, bool, string) {
 		mem := mkMem()
 		var holeLo, holeHi uint32
@@ -343,6 +344,7 @@ func c14alt(sc *sim.Scenario, env *sim.Env) *sim.Violation {
 		mc.CPU.SetRegs(startRegs(sc))
 		var recs []preStep
 		var lines [][]byte
+		strLines = nil
 		p, pv := sim.RecoverLib(func() {
 			for i := 0; i < steps; i++ {
 				r := mc.CPU.Regs()
@@ -360,6 +362,12 @@ func c14alt(sc *sim.Scenario, env *sim.Env) *sim.Violation {
 					before := len(ss.Cur)
 					mc.CPU.Trace(ss)
 					lines = append(lines, append([]byte{}, ss.Cur[before:]...))
+					if mc.altB != nil && ins != nil {
+						// cpualt's other rendering of the same instruction (returns a string)
+						strLines = append(strLines, mc.altB.Disassemble(r.PC))
+					} else {
+						strLines = append(strLines, "")
+					}
 				}
 				mc.CPU.Step()
 			}
@@ -367,6 +375,7 @@ func c14alt(sc *sim.Scenario, env *sim.Env) *sim.Violation {
 		return mc.CPU.Regs(), mem, recs, lines, p, sim.PanicString(pv)
 	}
 	regsA, memA, _, lines, pA, msgA := run(true)
+	strA := strLines
 	regsB, memB, recs, _, pB, msgB := run(false)
 	st.SimCycles += regsA.AllCycles + regsB.AllCycles
 	env.ObsU64(regsA.Hash())
@@ -395,5 +404,21 @@ func c14alt(sc *sim.Scenario, env *sim.Env) *sim.Violation {
 	if len(ls) != len(recs) {
 		return &sim.Violation{Oracle: "trace_line_count", Step: -1, Msg: fmt.Sprintf("cpualt: %d trace lines for %d steps", len(ls), len(recs))}
 	}
-	return checkLines(ls, recs, st)
+	if v := checkLines(ls, recs, st); v != nil {
+		return v
+	}
+	for i, sl := range strA {
+		if sl == "" || i >= len(recs) || recs[i].Ins == nil {
+			continue
+		}
+		t, err := parseTraceLineOpt(sl, false)
+		if err != nil {
+			return &sim.Violation{Oracle: "trace_unparsable", Step: i, Msg: "cpualt Disassemble(): " + err.Error()}
+		}
+		if o, msg := checkTraceLine(t, recs[i].R, recs[i].Ins); o != "" {
+			return &sim.Violation{Oracle: o, Step: i, Msg: fmt.Sprintf("cpualt Disassemble() for step %d %q: %s", i, sl, msg)}
+		}
+		st.Probe("cpualt_string_disassembly_checked")
+	}
+	return nil
 }
